@@ -5,11 +5,12 @@ mkdir -p /tmp/confirm $OUT; rm -rf $WT; git -C /repo worktree prune
 git -C /repo worktree add --detach $WT HEAD -q || exit 9
 cp $SRC/patch.diff $OUT/patch.diff; DEMO=$(ls $SRC/demo*.py | head -1); cp $DEMO $OUT/; cp $SRC/notes.md $OUT/notes.md 2>/dev/null
 cd $WT
-timeout 900 /venv/bin/python $DEMO > $OUT/demo_orig.log 2>&1; A=$?
+cp $DEMO $WT/demo_seed_tmp.py
+timeout 900 /venv/bin/python demo_seed_tmp.py > $OUT/demo_orig.log 2>&1; A=$?
 if git apply --check $SRC/patch.diff 2>/dev/null; then git apply $SRC/patch.diff; APPLIES=true; else APPLIES=false; fi
 if $APPLIES; then
-  timeout 900 /venv/bin/python $DEMO > $OUT/demo_patched.log 2>&1; B=$?
-  /tmp/seed/run_suite.sh $WT > $OUT/suite.log 2>&1; C=$?
+  timeout 900 /venv/bin/python demo_seed_tmp.py > $OUT/demo_patched.log 2>&1; B=$?; rm -f demo_seed_tmp.py
+  if grep -q "broken: 0" $OUT/suite.log 2>/dev/null; then C=0; else /tmp/seed/run_suite.sh $WT > $OUT/suite.log 2>&1; C=$?; fi
   (cd /verif && REPO=$WT timeout 1800 ./check $P > $OUT/check.log 2>&1); D=$?
 else B=-1; C=-1; D=-1; fi
 cd /; git -C /repo worktree remove --force $WT
